@@ -638,8 +638,198 @@ fn spectrum(ctx: &mut Ctx, p: &Prim, spdc: &SPDC, singles: bool) {
   }
 }
 
+// ---------------------------------------------------------------------------------- part 2: auto routines
+
+/// Snell inverse, optimum crystal angle, optimum poling period, poling sign — computed by the real
+/// crate on the rebuilt setup; the K line carries the primitives only
+fn auto_routines(ctx: &mut Ctx, p: &Prim, spdc: &SPDC) {
+  let st = p.tokens();
+  // Snell inverse for the signal at a random external angle
+  let ext = match ctx.rng.below(5) {
+    0 => 0.0,
+    1 => ctx.rng.range(0.0, 1e-3),
+    _ => ctx.rng.range(0.0, 6.0f64.to_radians()),
+  };
+  let s2 = spdc.clone();
+  let r = guard(move || Beam::calc_internal_theta_from_external(&s2.signal, ext * RAD, &s2.crystal_setup).value_unsafe);
+  ctx.k("cmpa_snell", &format!("{} | {}", st, fl(ext)), &r.map(fl).unwrap_or("PANIC".into()));
+  // poling sign
+  let s2 = spdc.clone();
+  let r = guard(move || PeriodicPoling::compute_sign(&s2.signal, &s2.pump, &s2.crystal_setup));
+  ctx.k(
+    "cmpa_sign",
+    &st,
+    &match r {
+      Some(Sign::NEGATIVE) => "NEGATIVE".to_string(),
+      Some(Sign::POSITIVE) => "POSITIVE".to_string(),
+      None => "PANIC".into(),
+    },
+  );
+  // optimum poling period
+  let s2 = spdc.clone();
+  let r = guard(move || spdcalc::optimum_poling_period(&s2.signal, &s2.pump, &s2.crystal_setup));
+  ctx.count(match &r {
+    Some(Ok(_)) => "compose/opt_period/ok",
+    Some(Err(_)) => "compose/opt_period/err",
+    None => "compose/opt_period/panic",
+  });
+  ctx.k(
+    "cmpa_opt_period",
+    &st,
+    &match &r {
+      Some(Ok(v)) => fl(v.value_unsafe),
+      Some(Err(_)) => "ERR".into(),
+      None => "PANIC".into(),
+    },
+  );
+  // the same search with the crystal length next to the period found (the upper bound of the search and
+  // the "result sits on the bound => Err" rule): L = |period| * (1 + d)
+  if let Some(Ok(v)) = &r {
+    let per = v.value_unsafe.abs();
+    if per.is_finite() && per > 0.0 && ctx.rng.below(2) == 0 {
+      let d = *ctx.rng.pick(&[1e-12, 1e-10, 5e-10, 2e-9, 1e-8, 1e-6, 1e-4, 1e-3, 5e-3, 2e-2, 0.1, -1e-10, -1e-6, -1e-3, -0.05]);
+      let mut p2 = p.clone();
+      p2.l = per * (1.0 + d);
+      if let Some(s3) = p2.build() {
+        let r2 = guard(move || spdcalc::optimum_poling_period(&s3.signal, &s3.pump, &s3.crystal_setup));
+        ctx.count(match &r2 {
+          Some(Ok(_)) => "compose/opt_period_at_bound/ok",
+          Some(Err(_)) => "compose/opt_period_at_bound/err",
+          None => "compose/opt_period_at_bound/panic",
+        });
+        ctx.k(
+          "cmpa_opt_period",
+          &p2.tokens(),
+          &match r2 {
+            Some(Ok(v)) => fl(v.value_unsafe),
+            Some(Err(_)) => "ERR".into(),
+            None => "PANIC".into(),
+          },
+        );
+      }
+    }
+  }
+  // optimum crystal angle
+  let s2 = spdc.clone();
+  let r = guard(move || s2.crystal_setup.optimum_theta(&s2.signal, &s2.pump).value_unsafe);
+  ctx.k("cmpa_opt_theta", &st, &r.map(fl).unwrap_or("PANIC".into()));
+}
+
+fn optimum_tokens(o: &SPDC) -> String {
+  format!(
+    "OK {} {} {} {} {}",
+    fl(o.crystal_setup.theta.value_unsafe),
+    beams_str(o),
+    match &o.pp {
+      PeriodicPoling::Off => "O".to_string(),
+      PeriodicPoling::On { period, sign, .. } =>
+        format!("P {}", fl(period.value_unsafe * if *sign == Sign::POSITIVE { 1.0 } else { -1.0 })),
+    },
+    fl(o.signal_waist_position.value_unsafe),
+    fl(o.idler_waist_position.value_unsafe)
+  )
+}
+
+/// `try_as_optimum` of the rebuilt setup, and once more of the optimum rebuilt from ITS primitives
+fn as_optimum(ctx: &mut Ctx, p: &Prim, spdc: &SPDC) {
+  let s2 = spdc.clone();
+  let r = guard(move || s2.try_as_optimum());
+  ctx.count(match &r {
+    Some(Ok(_)) => "compose/as_optimum/ok",
+    Some(Err(_)) => "compose/as_optimum/err",
+    None => "compose/as_optimum/panic",
+  });
+  ctx.k(
+    "cmpa_as_optimum",
+    &p.tokens(),
+    &match &r {
+      Some(Ok(o)) => optimum_tokens(o),
+      Some(Err(_)) => "ERR".into(),
+      None => "PANIC".into(),
+    },
+  );
+  if let Some(Ok(o)) = r {
+    // second pass: the optimum as a primitive setup of its own (idler explicit, as read back)
+    let p2 = prim_of(&o, false, true);
+    if let Some(o1) = p2.build() {
+      let r2 = guard(move || o1.try_as_optimum());
+      ctx.k(
+        "cmpa_as_optimum",
+        &p2.tokens(),
+        &match &r2 {
+          Some(Ok(o2)) => optimum_tokens(o2),
+          Some(Err(_)) => "ERR".into(),
+          None => "PANIC".into(),
+        },
+      );
+    }
+  }
+}
+
+/// configuration descriptors (the config family's generators) through `SPDC::from_json`; the K line
+/// is the descriptor alone
+fn from_config(ctx: &mut Ctx, malformed: bool, spectra: bool) {
+  use crate::fam::config::{gen_malformed, gen_valid, outcome_tokens};
+  let d = if malformed { gen_malformed(&mut ctx.rng).0 } else { gen_valid(&mut ctx.rng) };
+  let js = d.json().to_string();
+  let r: Option<Result<SPDC, String>> = match guard(|| serde_json::from_str::<spdcalc::SPDCConfig>(&js).ok()).flatten() {
+    None => {
+      ctx.count("compose/from_config/serde-rejected");
+      return;
+    }
+    Some(cfg) => guard(move || cfg.try_as_spdc().map_err(|e| e.0)),
+  };
+  ctx.count(match &r {
+    Some(Ok(_)) => "compose/from_config/ok",
+    Some(Err(_)) => "compose/from_config/err",
+    None => "compose/from_config/panic",
+  });
+  let auto = |a: &crate::fam::config::AutoV| matches!(a, crate::fam::config::AutoV::Auto | crate::fam::config::AutoV::Absent);
+  if auto(&d.c_theta) {
+    ctx.count("compose/from_config/auto-theta");
+  }
+  if let crate::fam::config::PolingD::Cfg { period, .. } = &d.poling {
+    ctx.count(if auto(period) { "compose/from_config/auto-period" } else { "compose/from_config/explicit-period" });
+  }
+  if d.signal.theta_e.is_some() {
+    ctx.count("compose/from_config/signal-external-angle");
+  }
+  ctx.k("cmpa_from_config", &d.tokens(), &outcome_tokens(&r));
+  if spectra {
+    if let Some(Ok(spdc)) = &r {
+      let divs = *ctx.rng.pick(&[50usize, 20, 10]);
+      let s2 = spdc.clone();
+      if let Some(js) = guard(move || s2.joint_spectrum(Integrator::Simpson { divs })) {
+        let mut pairs = vec![(spdc.signal.frequency().value_unsafe, spdc.idler.frequency().value_unsafe)];
+        pairs.push(gen_freqs(&mut ctx.rng, spdc));
+        for (ws, wi) in pairs {
+          let j1 = js.clone();
+          if let Some(v) = guard(move || j1.jsi(w(ws), w(wi)).value_unsafe) {
+            let sc = simpson_abs_scale(spdc, ws, wi, divs).unwrap_or(0.0);
+            let alpha = pump_spectral_amplitude(w(ws + wi), spdc);
+            let s3 = spdc.clone();
+            let nrm = guard(move || *(jsi_normalization(w(ws), w(wi), &s3) / JsiNorm::new(1.0))).unwrap_or(0.0);
+            // value, 0, forward-error scale of the quadrature sum behind it (see notes/compose.md)
+            ctx.k(
+              "cmpa_jsi_from_config",
+              &format!("{} | {} {}", d.tokens(), fls(&[ws, wi]), divs),
+              &format!("{} {} {}", fl(v), fl(0.0), fl(if v == 0.0 { 0.0 } else { nrm * (alpha * sc) * (alpha * sc) })),
+            );
+          }
+        }
+      }
+    }
+  }
+}
+
 pub fn run(ctx: &mut Ctx) {
   let mode = ctx.extra.first().cloned().unwrap_or_else(|| "all".to_string());
+  if mode == "c16" || mode == "c17" {
+    for _ in 0..ctx.n {
+      from_config(ctx, mode == "c17", mode == "c16");
+    }
+    return;
+  }
   let mut made = 0;
   let mut tries = 0;
   while made < ctx.n && tries < 30 * ctx.n + 100 {
@@ -665,6 +855,8 @@ pub fn run(ctx: &mut Ctx) {
       "c03" => geometry(ctx, &p, &spdc),
       "c06" => integrand(ctx, &p, &spdc),
       "c07" => spectrum(ctx, &p, &spdc, true),
+      "c04" => auto_routines(ctx, &p, &spdc),
+      "c20" => as_optimum(ctx, &p, &spdc),
       _ => {
         geometry(ctx, &p, &spdc);
         integrand(ctx, &p, &spdc);
